@@ -849,7 +849,7 @@ class Interp:
     def st_For(self, s, fr):
         it = self.eval(s.iter, fr)
         spec = self.bm.loop_spec(self, s, fr)
-        if spec is not None:
+        if spec is not None and isinstance(it, PyList) and it.prefix is not None:
             return self.bm.exec_for_with_invariant(self, s, fr, spec, it)
         items = self.bm.iterate(self, it)
         for v in items:
